@@ -36,7 +36,14 @@ def pick_logger():
 def mk_region(r):
     """r = ('rect', id, x1, y1, x2, y2) | ('circ', id, cx, cy, r)"""
     if r[0] == 'rect':
-        return RectangularRegion(id=r[1], x1=r[2], y1=r[3], x2=r[4], y2=r[5])
+        # the corners are handed over in any of the four orders (the constructor has to normalise them); which order is a
+        # deterministic function of the numbers, so that a run can be replayed
+        x1, y1, x2, y2 = r[2], r[3], r[4], r[5]
+        if int(float(x1) * 7) % 3 == 0:
+            x1, x2 = x2, x1
+        if int(float(y1) * 11) % 3 == 1:
+            y1, y2 = y2, y1
+        return RectangularRegion(id=r[1], x1=x1, y1=y1, x2=x2, y2=y2)
     return CircularRegion(id=r[1], cx=r[2], cy=r[3], r=r[4])
 
 DEFAULT_AT = [("ExcludeRegion", "^\\s*(enable|on)(\\s|$)", "enable_exclusion"),
@@ -45,7 +52,8 @@ DEFAULT_AT = [("ExcludeRegion", "^\\s*(enable|on)(\\s|$)", "enable_exclusion"),
 def new_handlers(regions=(), g90e=False, enter=None, exit_=None, ext=None, at=None):
     log = pick_logger()
     st = ExcludeRegionState(log)
-    st.g90InfluencesExtruder = g90e
+    if g90e:
+        st.g90InfluencesExtruder = True     # (False is the documented default: left as the class sets it)
     st.enteringExcludedRegionGcode = list(enter) if enter else None
     st.exitingExcludedRegionGcode = list(exit_) if exit_ else None
     st.extendedExcludeGcodes = {g: ExcludedGcode(g, m, '') for g, m in (ext or {}).items()}
